@@ -235,7 +235,14 @@ def global_state(chk, P):
                    site=fi.site(node), key="C12.O2|%s|%s|import-time" % (fi.fq, what))
         else:
             still.append((fi, node, what))
-    bad = still
+    bad = []
+    for fi, node, what in still:
+        root = what.rsplit(" ", 1)[-1].split(".")[0].split("[")[0]
+        if ("module-level" in what) and _memo_filter(P, fi, root):
+            chk.ob("C12.O2", "%s: %s - a look-up table whose key determines its value (%s)" % (fi.qualname, what, MEMO_EXPERIMENTS[fi.module.name][0]),
+                   True, site=fi.site(node), key="C12.O2|%s|%s|memo" % (fi.fq, what))
+        else:
+            bad.append((fi, node, what))
     for fi, node, what in bad:
         chk.ob("C12.O2", "%s: %s" % (fi.qualname, what), False, site=fi.site(node), found=ast.unparse(node)[:100], expect="no shared state written",
                key="C12.O2|%s|%s" % (fi.fq, what))
@@ -288,6 +295,96 @@ def _is_local(fi, name):
             if isinstance(node, ast.Name) and node.id == name and isinstance(node.ctx, ast.Store):
                 return True
         p = p.parent
+    return False
+
+
+# ------------------------------------------------------------------------------------------------------------------
+# module-level memo tables: written state that cannot be observed when the key determines the value
+_MEMO_VERDICT = {}
+MEMO_EXPERIMENTS = {
+    # module -> (what decides it, function(view, P) discharging obligations): the second-use experiment of the property
+    # whose objects go through that module
+    "atsim.potentials.spline": ("C10.O7 (a second spline with one radius changed solves the system of its own radii)", "c10", "second_spline"),
+}
+
+
+def memo_verdict(P, module, name):
+    """'transparent' | 'observable' | 'undecided: why' | None (not a memo table) for the module-level name `name`:
+    a dictionary that the whole package touches only as a look-up table (get / in / [] / store / clear / len / pop) and for
+    which an experiment of this machinery decides that a second use with other inputs gives what a fresh process gives"""
+    k = (module.name, name)
+    if k in _MEMO_VERDICT:
+        return _MEMO_VERDICT[k]
+    verdict = None
+    b = module.bindings.get(name)
+    val = getattr(getattr(b, "node", None), "value", None)
+    is_dict = isinstance(val, ast.Dict) and not val.keys or (isinstance(val, ast.Call) and ast.unparse(val.func).split(".")[-1] in ("dict", "OrderedDict")
+                                                             and not val.args and not val.keywords)
+    if b is not None and b.kind == "assign" and is_dict:
+        ok = True
+        for m in P.modules.values():
+            parents = {}
+            for n in ast.walk(m.tree):
+                for ch in ast.iter_child_nodes(n):
+                    parents[ch] = n
+            for n in ast.walk(m.tree):
+                refers = (isinstance(n, ast.Name) and n.id == name and m is module) or \
+                         (isinstance(n, ast.Attribute) and n.attr == name and m is not module)
+                if not refers:
+                    continue
+                p = parents.get(n)
+                if isinstance(n, ast.Name) and isinstance(n.ctx, ast.Store) and isinstance(p, ast.Assign) and p is b.node:
+                    continue
+                if isinstance(p, ast.Subscript) and p.value is n:
+                    continue
+                if isinstance(p, ast.Attribute) and p.value is n and p.attr in ("get", "clear", "pop", "popitem", "setdefault") \
+                        and isinstance(parents.get(p), ast.Call):
+                    continue
+                if isinstance(p, ast.Compare) and n in p.comparators and all(isinstance(o, (ast.In, ast.NotIn)) for o in p.ops):
+                    continue
+                if isinstance(p, ast.Call) and isinstance(p.func, ast.Name) and p.func.id == "len" and p.args == [n]:
+                    continue
+                if isinstance(n, ast.Attribute) and m is not module:
+                    continue          # an attribute of that name on some other object
+                ok = False
+        exp = MEMO_EXPERIMENTS.get(module.name)
+        if ok and exp is not None:
+            import importlib
+            from ..report import RuleView
+
+            class _Collect(object):
+                def __init__(self):
+                    self.bad, self.n = [], 0
+
+                def ob(self, rule, desc, ok_, **kw):
+                    self.n += 1
+                    if not ok_:
+                        self.bad.append(desc)
+
+                def rule(self, *a, **k):
+                    pass
+
+                def assume(self, *a, **k):
+                    pass
+            col = _Collect()
+            try:
+                getattr(importlib.import_module("sa.props." + exp[1]), exp[2])(col, P)
+                verdict = "transparent" if col.n and not col.bad else "observable"
+            except AnalysisError as e:
+                verdict = "undecided: %s" % e
+    _MEMO_VERDICT[k] = verdict
+    return verdict
+
+
+def _memo_filter(P, fi, rootname):
+    """True: a write to the module-level table `rootname` by fi is a transparent memo fill (discharged); False: report it.
+    Raises AnalysisError when the deciding experiment could not be carried out"""
+    v = memo_verdict(P, fi.module, rootname)
+    if v == "transparent":
+        return True
+    if v is not None and v.startswith("undecided"):
+        raise AnalysisError("%s writes the module-level look-up table %s; whether its key determines its value is decided by %s, which "
+                            "could not be carried out (%s)" % (fi.qualname, rootname, MEMO_EXPERIMENTS[fi.module.name][0], v[11:160]))
     return False
 
 
@@ -399,7 +496,7 @@ def shared_state_findings(P):
                     outer = fi
                     while outer.parent is not None:
                         outer = outer.parent
-                    if not (outer.cls is None and _import_time_only(P, outer)):
+                    if not (outer.cls is None and _import_time_only(P, outer)) and not _memo_filter(P, fi, root.id):
                         out.append((fi, "mutates module-level object %s" % ast.unparse(node.func.value)))
     return out
 
